@@ -1,6 +1,7 @@
 import json
 props=[json.loads(l) for l in open('/verif/properties.jsonl')]
 claimed=json.load(open('/verif/claims.json'))
+na_reasons=json.load(open('/verif/na.json'))
 checks=[]; na=[]
 for p in props:
     pid=p['id']
@@ -11,7 +12,7 @@ for p in props:
             level_claimed=dict(category=c.get('category','proof'), text=c['text'], design_ref=c.get('design_ref','DESIGN.md §4-'+pid)),
             level_note=c['note'], technique=c.get('technique','contract-based deductive verification: symbolic execution of the real source against sidecar contracts; obligations discharged by z3/cvc5 and z3-checked ring certificates')))
     else:
-        na.append(dict(property_id=pid, reason='not built yet in the time available (contracts for this property are not written); see DESIGN.md §10'))
+        na.append(dict(property_id=pid, reason=na_reasons.get(pid, 'not built in the time available (contracts for this property are not written); see DESIGN.md section 11')))
 m=dict(version=1, setup_cmd='./setup.sh',
   hooks=dict(guard='BASIC_ROBOTICS_VERIF', enable='no hooks: contracts are sidecar files and the extraction is an in-memory AST transform', baseline_off_cmd='cd /repo && /venv/bin/python -m pytest -ra -q -p no:cacheprovider --timeout=900 --continue-on-collection-errors', source_commits=[], add_only=True),
   engines=[dict(name='pyvc', path='pyvc/', serves_properties=sorted(claimed), kind_free_text='deductive verifier generating VCs by native symbolic execution of the transformed real source against sidecar contracts; back ends z3, cvc5, z3-checked ring certificates')],
